@@ -700,16 +700,49 @@ func scanOf(p *Program, q ssa.CallInstruction) (ssa.CallInstruction, []ssa.Value
 			}
 		}
 	}
-	for _, ci := range Calls(q.Parent()) {
+	return scanOn(p, q.Parent(), cands, 0)
+}
+
+// scanOn: the Scan call whose receiver is one of cands in fn, or - the row handed to a helper that is new on
+// this tree (scanQuote(row), also through an interface both *sql.Row and *sql.Rows satisfy) - in that helper.
+func scanOn(p *Program, fn *ssa.Function, cands map[ssa.Value]bool, depth int) (ssa.CallInstruction, []ssa.Value) {
+	for _, ci := range Calls(fn) {
 		d := p.Describe(ci)
-		if d.Static == nil || d.Static.Name() != "Scan" || !strings.HasPrefix(d.Name, "database/sql.") {
+		isSQL := d.Static != nil && d.Static.Name() == "Scan" && strings.HasPrefix(d.Name, "database/sql.")
+		isIface := d.Iface != nil && d.Iface.Name() == "Scan" && d.Iface.Pkg() != nil && p.InModule(d.Iface.Pkg().Path())
+		if !isSQL && !isIface {
 			continue
 		}
-		if d.Recv != nil && cands[d.Recv] && len(d.Args) == 1 {
+		recv := d.Recv
+		if isIface {
+			recv = ci.Common().Value
+		}
+		if recv != nil && cands[recv] && len(d.Args) == 1 {
 			if va, ok := VarArgs(d.Args[0]); ok {
 				return ci, va
 			}
 			return ci, nil
+		}
+	}
+	if depth >= 2 {
+		return nil, nil
+	}
+	for _, ci := range Calls(fn) {
+		h := ci.Common().StaticCallee()
+		if h == nil || h.Blocks == nil || !p.IsNewFunc(h) {
+			continue
+		}
+		for i, a := range ci.Common().Args {
+			base := a
+			if mi, ok := a.(*ssa.MakeInterface); ok {
+				base = mi.X
+			}
+			if !cands[base] && !cands[a] || i >= len(h.Params) {
+				continue
+			}
+			if sc, dests := scanOn(p, h, map[ssa.Value]bool{h.Params[i]: true}, depth+1); sc != nil {
+				return sc, dests
+			}
 		}
 	}
 	return nil, nil
